@@ -11,7 +11,7 @@ pub struct Sink {
     outs: Vec<BufWriter<File>>,
     next: usize,
     group: Option<usize>,
-    next_group: usize,
+    per_shard: Vec<u64>,
     pub lines: u64,
     distinct: HashSet<u128>,
     ops: BTreeMap<String, u64>,
@@ -46,7 +46,7 @@ impl Sink {
             outs,
             next: 0,
             group: None,
-            next_group: 0,
+            per_shard: vec![0; shards.max(1)],
             lines: 0,
             distinct: HashSet::new(),
             ops: BTreeMap::new(),
@@ -59,8 +59,15 @@ impl Sink {
 
     /// All lines until `end_group` go to one shard, in order (C05 chains).
     pub fn begin_group(&mut self) {
-        self.group = Some(self.next_group % self.outs.len());
-        self.next_group += 1;
+        // the currently shortest shard (first one on ties): keeps shards balanced although groups
+        // differ a lot in size
+        let mut best = 0;
+        for k in 0..self.per_shard.len() {
+            if self.per_shard[k] < self.per_shard[best] {
+                best = k;
+            }
+        }
+        self.group = Some(best);
     }
     pub fn end_group(&mut self) {
         self.group = None;
@@ -84,6 +91,7 @@ impl Sink {
             }
         }
         self.lines += 1;
+        self.per_shard[k] += 1;
         let op = line.split(' ').next().unwrap_or("").to_string();
         *self.ops.entry(op).or_insert(0) += 1;
         self.distinct.insert(fp128(&line));
